@@ -118,6 +118,26 @@ def ev_rename(c, s, t, groups):
     return _finish(ev, res, exc, msg, groups, cf)
 
 
+def ev_renames(c, maps, groups):
+    """rename_variables with a list of mappings applied in order"""
+    ev = {"op": "renames", "c1": C.pcontract(c), "c2": dict(C.EMPTY), "keep": [], "addl": [], "s": "", "t": "", "maps": [list(m) for m in maps]}
+    res, exc, msg = _call(lambda: c.rename_variables([tuple(m) for m in maps]))
+    ev["_stats"] = []
+
+    def cf(grp):
+        if grp == "faithful":
+            want = ev["c1"]
+            for s_, t_ in maps:
+                want = C.renamed(want, s_, t_)
+            return C.equiv(ev["res"], want)
+        return None
+
+    ev = _finish(ev, res, exc, msg, groups, cf)
+    for s_, t_ in maps:
+        ev["names"] = sorted(set(ev["names"]) | {s_, t_})
+    return ev
+
+
 def reconfirm_event(ev, grp, detail):
     """detail like 'sound:3' -> re-evaluate clause 3 of the group exactly on the unsnapped rows."""
     parts = detail.split(":")
